@@ -1557,9 +1557,9 @@ def check_drun(ctx, res, case, oracle_only=False, via=None, cache_off=False, out
                             dict(desc, evaluation=j, node=i, t=ev['t']), [p[1], Tref[i]], '|T_computed - T_schedule(t)| < %g' % lim)
         # ---- oracle 3: fluxes / time step against the evaluation at (x, schedule) that does not go through the table
         every = case.get('check_every', 1)
+        tol = drun_tol(case, out, ev, Tref)
+        out.setdefault('tols', []).append(tol)               # every evaluation: the bound of the cached-vs-uncached comparison
         if j % every == 0 or j == len(fl_events) - 1:
-            tol = drun_tol(case, out, ev, Tref)
-            out.setdefault('tols', []).append(tol)
             if tol is None:
                 res.count('diffusion flux reference skipped (resolution bound not small)')
             else:
